@@ -1,2 +1,151 @@
--- Driver stub for C01 (replaced when the property's model driver is written).
-def main : IO Unit := IO.println "C01: no driver yet"
+import Std.Data.HashMap
+import TsVerif.Common.IO
+import TsVerif.C01.Judge
+/-!
+Driver for C01.  Input: language tables (from `tsv-cunit_c01`), symbol names (from the harness),
+then cases (edited old tree dump, incremental tree dump, scratch tree dump, the two cursor walks,
+the parser's log of the incremental parse).  Output per case:
+
+`<id> judge=<ok|FAIL msg> corr=<ok|DIFF msg> clean=<0|1> gate=.. match=.. undet=.. refusals=..
+ reused_inner=.. reused_leaf=.. reused_bytes=.. lexed=.. nodes=..`
+-/
+open TsVerif TsVerif.C01 TsGen
+
+structure LangData where
+  lexModes : Array LexMode := #[]
+  entries : Std.HashMap (Nat × Nat) TableEntry := {}
+  kct : Nat := 0
+  names : Std.HashMap Nat String := {}
+
+def LangData.toLang (d : LangData) : Lang :=
+  { lexMode := fun s => d.lexModes[s]?.getD { lexState := 0, extLexState := 0, reservedSet := 0 }
+    entry := fun s t => (d.entries.get? (s, t)).getD { actionCount := 0, reusable := false }
+    keywordCaptureToken := d.kct }
+
+def LangData.symName (d : LangData) (s : Nat) : String :=
+  if s == symError then "ERROR" else if s == symErrorRepeat then "_ERROR"
+  else (d.names.get? s).getD s!"?{s}"
+
+structure St where
+  langs : Std.HashMap String LangData := {}
+  cur : String := ""          -- language being defined
+  mode : Nat := 0             -- 0 none 1 table 2 langdef 3 old 4 incr 5 scratch 6 walk_incr 7 walk_scratch 8 log
+  id : String := ""
+  lang : String := ""
+  text2 : Array Nat := #[]
+  apiIncr : Bool := false
+  apiScratch : Bool := false
+  old : Array String := #[]
+  incr : Array String := #[]
+  scratch : Array String := #[]
+  walkIncr : Array String := #[]
+  walkScratch : Array String := #[]
+  log : Array String := #[]
+
+def lineStarts (text : Array Nat) : Array Nat := Id.run do
+  let mut a := #[0]
+  for i in [0:text.size] do
+    if text[i]! == 10 then a := a.push (i + 1)
+  return a
+
+/-- `key:value` fields of a log line after the event word, separated by ", ". -/
+def field (rest : String) (key : String) : Option String :=
+  (rest.splitOn ", ").findSome? fun kv =>
+    if kv.startsWith (key ++ ":") then some ((kv.drop (key.length + 1)).toString) else none
+
+def afterPrefix (line pre : String) : Option String :=
+  if line.startsWith pre then some ((line.drop pre.length).toString) else none
+
+def replayLine (L : Lang) (nm : Nat → String) (starts : Array Nat) (root : Tree) (s : RS) (line : String) : RS :=
+  let s := if line.startsWith "state_mismatch " then s else s.flushShift
+  if line == "parse_after_edit" then { s with it := Iter.reset root }
+  else if let some r := afterPrefix line "different_included_range " then
+    match r.splitOn " - " with
+    | [a, b] => { s with diffs := s.diffs.push (natOf a, natOf b) }
+    | _ => s
+  else if let some r := afterPrefix line "process " then
+    let st := natOf ((field r "state").getD "0")
+    let row := natOf ((field r "row").getD "0")
+    let col := natOf ((field r "col").getD "0")
+    s.process st ((starts[row]?.getD 0) + col)
+  else if let some r := afterPrefix line "before_reusable_node symbol:" then s.gateEvent L nm .before r
+  else if let some r := afterPrefix line "past_reusable_node symbol:" then s.gateEvent L nm .past r
+  else if let some r := afterPrefix line "reusable_node_has_different_external_scanner_state symbol:" then s.gateEvent L nm .extState r
+  else if let some r := afterPrefix line "cant_reuse_node_has_changes tree:" then s.gateEvent L nm .hasChanges r
+  else if let some r := afterPrefix line "cant_reuse_node_is_error tree:" then s.gateEvent L nm .isError r
+  else if let some r := afterPrefix line "cant_reuse_node_is_missing tree:" then s.gateEvent L nm .isMissing r
+  else if let some r := afterPrefix line "cant_reuse_node_is_fragile tree:" then s.gateEvent L nm .isFragile r
+  else if let some r := afterPrefix line "cant_reuse_node_contains_different_included_range tree:" then s.gateEvent L nm .rangeDiff r
+  else if let some r := afterPrefix line "cant_reuse_node symbol:" then
+    s.gateEvent L nm .firstLeaf ((r.splitOn ", first_leaf_symbol:").headD "")
+  else if let some r := afterPrefix line "reuse_node symbol:" then s.gateEvent L nm .reuse r
+  else if let some r := afterPrefix line "state_mismatch sym:" then s.stateMismatch nm r
+  else if line.startsWith "breakdown_top_of_stack " then { s with state := none }
+  else if line.startsWith "shift state:" || line == "shift_extra" then s.shift
+  else if line.startsWith "lexed_lookahead " then { s with lexed := s.lexed + 1 }
+  else s
+
+def runCase (s : St) : String :=
+  match s.langs.get? s.lang, parseDump s.old.toList, parseDump s.incr.toList, parseDump s.scratch.toList with
+  | some ld, some o, some i, some sc =>
+    let (j, clean) := match judge i.root sc.root s.walkIncr s.walkScratch s.apiIncr s.apiScratch with
+      | .ok c => ("ok", c)
+      | .fail m => ("FAIL " ++ m, false)
+    let L := ld.toLang
+    let starts := lineStarts s.text2
+    let rs := s.log.foldl (replayLine L ld.symName starts o.root) ({} : RS)
+    let corr := match rs.fail with
+      | none => "ok"
+      | some m => "DIFF " ++ m
+    s!"{s.id} judge={j} corr={corr} clean={if clean then 1 else 0} gate={rs.gate} match={rs.matched} undet={rs.undet} refusals={rs.refusals} reused_inner={rs.reusedInner} reused_leaf={rs.reusedLeaf} reused_bytes={rs.reusedBytes} lexed={rs.lexed} nodes={i.root.size}"
+  | none, _, _, _ => s!"{s.id} judge=BADINPUT corr=BADINPUT no tables for language {s.lang}"
+  | _, _, _, _ => s!"{s.id} judge=BADINPUT corr=BADINPUT unreadable dump"
+
+def updLang (s : St) (f : LangData → LangData) : St :=
+  { s with langs := s.langs.insert s.cur (f ((s.langs.get? s.cur).getD {})) }
+
+def step (s : St) (line : String) : IO St := do
+  if line.isEmpty then return s
+  match s.mode with
+  | 1 =>
+    match line.splitOn " " with
+    | ["end"] => return { s with mode := 0 }
+    | ["lm", _, a, b, c] => return updLang s fun d => { d with lexModes := d.lexModes.push { lexState := natOf a, extLexState := natOf b, reservedSet := natOf c } }
+    | "te" :: st :: tok :: cnt :: reus :: _ =>
+      return updLang s fun d => { d with entries := d.entries.insert (natOf st, natOf tok) { actionCount := natOf cnt, reusable := natOf reus == 1 } }
+    | _ => return s
+  | 2 =>
+    match line.splitOn " " with
+    | ["end"] => return { s with mode := 0 }
+    | "sym" :: id :: _ :: _ :: _ :: _ :: nameParts =>
+      return updLang s fun d => { d with names := d.names.insert (natOf id) (" ".intercalate nameParts) }
+    | _ => return s
+  | 3 => if line == "end" then return { s with mode := 0 } else return { s with old := s.old.push line }
+  | 4 => if line == "end" then return { s with mode := 0 } else return { s with incr := s.incr.push line }
+  | 5 => if line == "end" then return { s with mode := 0 } else return { s with scratch := s.scratch.push line }
+  | 6 => if line == "end" then return { s with mode := 0 } else return { s with walkIncr := s.walkIncr.push line }
+  | 7 => if line == "end" then return { s with mode := 0 } else return { s with walkScratch := s.walkScratch.push line }
+  | 8 => if line == "end" then return { s with mode := 0 } else return { s with log := s.log.push line }
+  | _ =>
+    match line.splitOn " " with
+    | "table" :: id :: _ :: _ :: _ :: kct :: _ =>
+      let s := { s with cur := id, mode := 1 }
+      return updLang s fun d => { d with kct := natOf kct, lexModes := #[], entries := {} }
+    | ["langdef", id] => return { s with cur := id, mode := 2 }
+    | ["case", id] =>
+      return { s with id := id, lang := "", text2 := #[], old := #[], incr := #[], scratch := #[],
+                      walkIncr := #[], walkScratch := #[], log := #[] }
+    | ["lang", id] => return { s with lang := id }
+    | ["text2", h] => return { s with text2 := (unhexBytes h).toArray }
+    | ["api", a, b] => return { s with apiIncr := a == "1", apiScratch := b == "1" }
+    | ["old"] => return { s with mode := 3 }
+    | ["incr"] => return { s with mode := 4 }
+    | ["scratch"] => return { s with mode := 5 }
+    | ["walk_incr"] => return { s with mode := 6 }
+    | ["walk_scratch"] => return { s with mode := 7 }
+    | ["log"] => return { s with mode := 8 }
+    | ["run"] => IO.println (runCase s); return s
+    | _ => return s
+
+def main : IO Unit := do
+  let _ ← foldLines (← IO.getStdin) ({} : St) step
